@@ -40,9 +40,13 @@ VALID.append("program p7\n  x = sin(1.0) + tan(2.0)\nend program p7\n")
 VALID.append("program p8\n  type t8\n    real, pointer :: v(:)\n  end type t8\n  open (unit = 10, file = 'f.dat', status = 'old')\n"
              "  allocate (a(10), stat = ierr)\n  close (unit = 10, status = 'keep')\n  inquire (unit = 10, opened = lo)\nend program p8\n")
 VALID.append("program p9\n  open (newunit = lun, file = 'f.dat')\nend program p9\n")
+# the same physical lines (character literal, code behind it, trailing comment) read again and
+# again in one process: nothing the tokeniser hands out may be shared between readers
+VALID.append("subroutine s10(total)\n  print *, 'total is', total ! in metres\n  write (*, '(a)') 'x ! y', total ! it's\n"
+             "  total = len('a''b') + 1 ! \"q\nend subroutine s10\n")
 VALID_F08_ONLY.add(6)
 
-LETTERS = ["c03", "c08", "v0", "v1", "v2", "v3", "v4", "v5", "v6", "i0", "i1", "i2", "i3", "i4", "i5", "i6"]
+LETTERS = ["c03", "c08", "v0", "v1", "v2", "v3", "v4", "v5", "v6", "v7", "i0", "i1", "i2", "i3", "i4", "i5", "i6"]
 
 
 def _table_names(txt):
@@ -182,7 +186,7 @@ def run_case(case):
 def cases(tier, seed, refs):
     out = []
     maxlen = 3 if tier != "thorough" else 4
-    finals = [("f2003", "v1"), ("f2008", "v0"), ("f2008", "v1"), ("f2003", "v2"), ("f2008", "i0"), ("f2003", "i2"), ("f2008", "v4"), ("f2003", "v4"), ("f2003", "v6"), ("f2003", "v5"), ("f2008", "v6"), ("f2003", "v6")]
+    finals = [("f2003", "v1"), ("f2008", "v0"), ("f2008", "v1"), ("f2003", "v2"), ("f2008", "i0"), ("f2003", "i2"), ("f2008", "v4"), ("f2003", "v4"), ("f2003", "v6"), ("f2003", "v5"), ("f2008", "v6"), ("f2003", "v6"), ("f2008", "v7"), ("f2003", "v7")]
     rng = random.Random(seed)
     k = 0
     for n in range(0, maxlen + 1):
